@@ -186,7 +186,7 @@ func tokRec(form, alg, key, iss string, hasExp bool, exp int, hasNbf bool, nbf i
 }
 
 // BadCookieKinds lists the forged cookie classes used for "bad" cookies.
-var BadCookieKinds = []string{"garbage", "emptystr", "expired", "wrongkey", "algnone", "hs384", "hs512", "rs256", "wrongiss", "noiss",
+var BadCookieKinds = []string{"garbage", "tiny", "emptystr", "expired", "wrongkey", "algnone", "hs384", "hs512", "rs256", "wrongiss", "noiss",
 	"revoked", "unknownat", "idperror", "nbffuture", "json", "flatjson", "nested", "mutpayload", "mutsig", "muthdr", "trunc", "emptykey", "expiredleeway"}
 
 // Forge builds a cookie of the given bad kind with its abstract description.
@@ -211,6 +211,10 @@ func (i *Inst) Forge(kind string, cc *cookieCtx, rng *rand.Rand) (string, M) {
 			b[k] = byte(33 + rng.Intn(90))
 		}
 		return string(b), tokRec("garbage", "none", "other", "missing", false, 0, false, 0, "unknown", "none")
+	case "tiny":
+		// a string of 1..11 characters (shorter than any token part), dots included
+		t := []string{"a", "..", "a.b", "a.b.c", "e30.e30.", "x.y.z.w", "0123456789", "eyJ.eyJ.sig"}[rng.Intn(8)]
+		return t, tokRec("garbage", "none", "other", "missing", false, 0, false, 0, "unknown", "none")
 	case "emptystr":
 		return "", tokRec("empty", "none", "other", "missing", false, 0, false, 0, "unknown", "none")
 	case "expired":
